@@ -251,7 +251,9 @@ def decompose_multi_controlled_rotation(
         return [ops.MatrixGate(matrix).on(target)]
     elif len(controls) == 1:
         return _decompose_single_ctrl(matrix, controls[0], target)
-    elif is_special_unitary(matrix):
+    elif is_special_unitary(matrix, rtol=0, atol=1e-8):
+        # (with the default relative tolerance a determinant phase of up to 1e-5 would be dropped,
+        # and under the controls that phase is not global)
         return _decompose_su(matrix, controls, target)
     else:
         return _decompose_recursive(matrix, 1.0, controls, target, [])
